@@ -81,7 +81,16 @@ class CGWorld(World):
         cplx = k["complex"]
         dt = {("double", False): "float64", ("double", True): "complex128",
               ("single", False): "float32", ("single", True): "complex64"}[(k["prec"], cplx)]
+        if k["prec"] == "single":
+            # single precision: keep CG in its convergent regime (cond <= ~1e2, no dense preconditioner)
+            if k["Pkind"] in ("hpd", "inverse"):
+                k["Pkind"] = "jacobi"
+            if k["x0kind"] == "exact":
+                k["x0kind"] = "random"
         eigs = _eigs(rng, k["family"], n)
+        if k["prec"] == "single":
+            lo_e = min(eigs)
+            eigs = [min(e, 100.0 * lo_e) for e in eigs]
         A, Q = common.hpd(g, n, cplx, eigs)
         plan = {"world": self.name, "seed": seed, "knobs": k, "n": n, "xshape": xshape, "dtype": dt}
         if k["Aform"] == "compose":
@@ -286,7 +295,7 @@ class CGWorld(World):
         kopt, rank = krylov.krylov_optimal(Ad, Pd, b, x0, kmax)
         cdt = np.complex64 if prec == "single" else np.complex128
         rdt = dt
-        ref = krylov.textbook_pcg(Ad.astype(cdt) if np.iscomplexobj(np.empty(0, dt)) else np.real(Ad).astype(dt),
+        ref, rzhist = krylov.textbook_pcg(Ad.astype(cdt) if np.iscomplexobj(np.empty(0, dt)) else np.real(Ad).astype(dt),
                                   None if Pd is None else (Pd.astype(cdt) if np.iscomplexobj(np.empty(0, dt)) else np.real(Pd).astype(dt)),
                                   b, x0, kmax, rdt)
         e0 = krylov.anorm(Ad, x0.astype(np.complex128).ravel() - xstar)
@@ -294,6 +303,21 @@ class CGWorld(World):
         dist_ref = [krylov.anorm(Ad, ref[j].astype(np.complex128) - kopt[j]) for j in range(kmax + 1)]
         normA = float(w[-1])
         normP = 1.0 if Pd is None else float(np.linalg.norm(Pd, 2))
+        # The textbook run in the same precision tells where floating-point CG
+        # itself stops being meaningful (recursive residual under/overflowing or
+        # <r, P r> no longer positive): single-precision sessions are judged only
+        # while the textbook run is healthy one step beyond the judged update.
+        rzfloor = 1e-20 if prec == "single" else 1e-280
+        healthy = 0
+        if rzhist[0] == 0:
+            healthy = kmax
+        else:
+            for j in range(kmax + 1):
+                ok = np.isfinite(rzhist[j]) and rzhist[j] > rzfloor and np.all(np.isfinite(ref[j]))
+                if not ok:
+                    break
+                healthy = j
+            healthy = max(0, healthy - 1) if healthy < kmax else kmax
 
         # ---- construct the real solver
         alg = common.lib_call("ConjugateGradient.__init__", -1, ConjugateGradient, A_cb, b, x_caller,
@@ -314,7 +338,13 @@ class CGWorld(World):
         acts = []
 
         def done_(step):
-            return common.lib_call("ConjugateGradient.done", step, alg.done)
+            try:
+                return common.lib_call("ConjugateGradient.done", step, alg.done)
+            except Violation:
+                if st["k"] >= healthy and not (rzhist[0] == 0):
+                    stats["probes.cg_raised_in_rounding_regime"] += 1
+                    return True
+                raise
 
         def do_update(step):
             fault_before = fstate["active"]
@@ -332,6 +362,15 @@ class CGWorld(World):
             if badl:
                 raise Violation("ledger", "ConjugateGradient.update", step, {"changed": badl, "k": kk})
             xk = x_caller.astype(np.complex128).ravel()
+            if kk > healthy and not st["broken"]:
+                # floating-point CG itself is past its meaningful regime on this
+                # instance (see `healthy` above): nothing is judged from here on
+                stats["probes.cg_rounding_regime_unjudged"] += 1
+                st["unjudged"] = True
+                trace.append({"a": "U", "k": kk, "unjudged": True})
+                return
+            if st.get("unjudged"):
+                return
             if not np.all(np.isfinite(xk.view(np.float64))):
                 raise Violation("nonfinite_iterate", "ConjugateGradient.update", step, {"k": kk})
             # -- breakdown bookkeeping (fault runs)
